@@ -1469,6 +1469,8 @@ class FileHashStore(HashStore):
             self._synchronize_referenced_locked_pids(pid)
             self._synchronize_object_locked_cids(cid)
 
+            # Only a tagging that this call has started may be reverted (untagged) on failure
+            tagging_started = False
             try:
                 # Prepare files and paths
                 tmp_root_path = self._get_store_path("refs") / "tmp"
@@ -1519,6 +1521,7 @@ class FileHashStore(HashStore):
                     self.fhs_logger.debug(debug_msg)
                     # Move the pid refs file
                     pid_tmp_file_path = self._write_refs_file(tmp_root_path, cid, "pid")
+                    tagging_started = True
                     shutil.move(pid_tmp_file_path, pid_refs_path)
                     # Update cid ref files as it already exists
                     if not self._is_string_in_refs_file(pid, cid_refs_path):
@@ -1537,6 +1540,7 @@ class FileHashStore(HashStore):
                 # Move both files after checking the existing status of refs files
                 pid_tmp_file_path = self._write_refs_file(tmp_root_path, cid, "pid")
                 cid_tmp_file_path = self._write_refs_file(tmp_root_path, pid, "cid")
+                tagging_started = True
                 shutil.move(pid_tmp_file_path, pid_refs_path)
                 shutil.move(cid_tmp_file_path, cid_refs_path)
                 log_msg = "Refs files have been moved to their permanent location. Verifying refs."
@@ -1557,7 +1561,10 @@ class FileHashStore(HashStore):
                 # much as possible. No exceptions from the reverting process will be thrown.
                 err_msg = f"Unexpected exception: {ue}, reverting tagging process (untag obj)."
                 self.fhs_logger.error(err_msg)
-                self._untag_object(pid, cid)
+                # A failure before any reference file was placed (ex. while creating directories)
+                # must not untag a pid that was already validly tagged by an earlier call
+                if tagging_started:
+                    self._untag_object(pid, cid)
                 raise ue
 
         finally:
